@@ -690,3 +690,82 @@ for _p in range(3):
             body_k8_hook_assigns(_p, *_a)
         except Exception:
             pass
+
+
+# ------------------------------------------------------------------ a validation hook INHERITED from a base dataclass
+
+_TH = t.TypeVar('_TH')
+
+
+class HBase(PaneBase, in_format=('struct', 'tuple')):
+    lo: int = 0
+    hi: int = 10
+
+    def __post_init__(self):
+        HOOK[0] += 1
+        if self.lo > self.hi:
+            raise ValueError("lo > hi")
+
+
+class HSub(HBase):
+    """inherits the hook, adds a field"""
+    name: str = 'n'
+
+
+class HGen(PaneBase, t.Generic[_TH], in_format=('struct', 'tuple')):
+    lo: _TH
+    hi: _TH
+
+    def __post_init__(self):
+        HOOK[0] += 1
+        if self.lo > self.hi:
+            raise ValueError("lo > hi")
+
+
+class HGenSub(HGen[int]):
+    """a plain subclass of a specialisation: the hook comes from the generic origin"""
+    name: str = 'n'
+
+
+for _c in (HBase, HSub, HGen[int], HGenSub):
+    make_converter(_c)
+
+
+@obligation(pre="0 <= which <= 3 and 0 <= path <= 2 and -1 <= i <= 1 and -1 <= j <= 1", witnesses=(0, -1), timeout=200)
+def body_inherited_hook(which: int, path: int, i: int, j: int) -> int:
+    """a validation hook inherited from a base dataclass (plain base, generic origin) runs on every path; its failure is a ConvertError on the data paths, exactly when the constructor fails"""
+    cls = HBase if which == 0 else (HSub if which == 1 else (HGen[int] if which == 2 else HGenSub))
+    lo, hi = cint(i), cint(j)
+    h0 = HOOK[0]
+    ctor = attempt(lambda: cls(lo=lo, hi=hi))
+    h1 = HOOK[0]
+    if path == 0:
+        data = attempt(lambda: cls.from_data({'lo': lo, 'hi': hi}))
+    elif path == 1:
+        data = attempt(lambda: cls.from_data([lo, hi]))
+    else:
+        data = attempt(lambda: pane.convert({'lo': lo, 'hi': hi}, cls))
+    h2 = HOOK[0]
+    if h1 - h0 != 1 or h2 - h1 < 1:
+        return 8
+    should_fail = lo > hi
+    if should_fail:
+        if ctor[0] == 'ok' or data[0] == 'ok':
+            return 9
+        if data[0] != 'reject':
+            return 9          # anything but ConvertError on a data path
+        return -1
+    if ctor[0] != 'ok' or data[0] != 'ok':
+        return 1
+    if not eqv(ctor[1], data[1]):
+        return 2
+    return 0
+
+
+for _w in range(4):
+    for _p in range(3):
+        for _a in ((0, 1), (1, 0)):
+            try:
+                body_inherited_hook(_w, _p, *_a)
+            except Exception:
+                pass
